@@ -18,6 +18,7 @@ DECIDED = [
     "R-C20-TABLE: decision table of handle_request over (method == GET, path == endpoint): (T,T) -> the status line of self.status, otherwise 404",
     "R-C20-PAIR: every exit of Worker.run after health_check_server.start() - normal, exceptional, cancelled - passes stop(); start() (re)opens "
     "the port whenever the server is not serving; the worker hands its server to the runner",
+    "R-C20-ISOLATED (closes): every normal exit of data_received - including exits through its own exception handlers - passes transport.close()",
 ]
 NOT_DECIDED = ["the parser on arbitrary bytes as such (exceptions there are contained by the asyncio transport - trusted)", "fragmented valid requests"]
 ASSUMPTIONS = ["asyncio's selector transport catches exceptions raised by Protocol.data_received and closes only that connection"]
@@ -144,7 +145,9 @@ def closes(ctx: Ctx, rule="R-C20-ISOLATED") -> None:
     f = ctx.func(f"{PROTO}.data_received")
     g = ctx.icfg(f)
     cl = [n.id for n in g.calls() if (n.callee or "").endswith("transport.close") or (n.callee or "").endswith("transport.abort")]
-    ctx.require(bool(cl), f"{f.qualname}: transport.close() not found")
+    if not ctx.check(bool(cl), rule, f, "data_received closes the connection", "transport.close() present",
+                     "data_received never closes the transport: every probe leaves a connection open", instance="data_received closes"):
+        return
     kinds = flow.NORMAL_KINDS + ("exc",)  # exceptions that a handler inside the method catches continue on a normal path
     ok = flow.must_pass(g, g.entry.id, [g.exit.id], cl, kinds)
     path = flow.find_path(g, g.entry.id, {g.exit.id}, kinds, blocked=frozenset(cl)) if not ok else None
